@@ -30,15 +30,15 @@ def rkSpec (ops : FOps) (w : Nat) : Num :=
   if fInt then
     let v : Int := if num < 536870912 then (num : Int) else (num : Int) - 1073741824
     if fX100 then
-      if v % 100 = 0 then .int (v / 100) else .float (ops.div100 (ops.i2f v))
+      if v % 100 = 0 then .int (v / 100) else .float (ops.div100 (i2f v))
     else .int v
   else
     let bits := num * 17179869184
     .float (if fX100 then ops.div100 bits else bits)
 
-/-- the double a decoded RK value denotes (`Int` cells are numerically `v as f64`) -/
-def numBits (ops : FOps) : Num → Nat
-  | .int v => ops.i2f v
+/-- the double a decoded RK value denotes: an integer is numerically `v as f64` (`De.intToF64`, exact) -/
+def numBits : Num → Nat
+  | .int v => i2f v
   | .float b => b
 
 /-- RK word of a 30-bit signed integer -/
@@ -71,10 +71,13 @@ def LVal.toVal : LVal → Val
   | .bool b => .bool b
   | .err k => .error k
 
-/-- numeric view of a cell value: an `Int` counts as the double `v as f64` ("numerically equal") -/
-def numView (ops : FOps) : Val → Val
-  | .int v => .float (ops.i2f v)
-  | v => v
+/-- the double a numeric cell value stands for, whatever its variant: `Int` (RK integers) counts as `v as f64`,
+    a date/time cell as its serial; `none` for non-numeric values -/
+def numOf : Val → Option Nat
+  | .int v => some (i2f v)
+  | .float b => some b
+  | .dt b _ _ => some b
+  | _ => none
 
 /-! ### layout -/
 
@@ -180,14 +183,14 @@ def cachedBytes : Cached → Bytes
 def choose (env : Env) (v : LVal) (e : Enc) : Phys :=
   match v, e with
   | .num x, .num (.rk w) =>
-    if w < 4294967296 ∧ numBits env.ops (rkSpec env.ops w) = x then .rk w else .number x
+    if w < 4294967296 ∧ numBits (rkSpec env.ops w) = x then .rk w else .number x
   | .num x, .formula rgce _ _ _ =>
     -- a FormulaValue whose last two bytes are FF FF is not a number
     if x / 281474976710656 = 65535 then .number x else .formula (.num x) (rgce.take 255)
   | .num x, _ => .number x
   | .str s, .label wide => .label wide s
   | .str s, .labelSst i =>
-    if i < 4294967296 ∧ env.strings[i]? = some s ∧ s ≠ [] then .labelSst i else .label true s
+    if i < 4294967296 ∧ env.strings[i]? = some s then .labelSst i else .label true s
   | .str s, .formula rgce wide between blank3 =>
     if s = [] ∧ blank3 then .formula .blank (rgce.take 255)
     else .formula (.str wide s (between.filter ignorable)) (rgce.take 255)
@@ -273,6 +276,33 @@ def eofRec : Rec := ⟨0x000A, [], []⟩
 /-- the worksheet substream: BOF, the cell records, EOF -/
 def substream (env : Env) (S : List LCell) (lays : List Lay) : Bytes :=
   frame (bofRec :: encodeSheet env S lays ++ [eofRec])
+
+/-! ### the expected value of a cell, from the specification -/
+
+/-- the number a numeric cell's record holds before typing: the RkNumber reading ([MS-XLS] 2.5.217) when the
+    layout's RK word denotes the cell's number (then an integer RK reads as an integer), the double otherwise
+    (NUMBER, FORMULA, or the NUMBER fallback of a word that does not denote it) -/
+def numContent (env : Env) (x : Nat) (e : Enc) : Num :=
+  match e with
+  | .num (.rk w) => if w < 4294967296 ∧ numBits (rkSpec env.ops w) = x then rkSpec env.ops w else .float x
+  | _ => .float x
+
+/-- how the cell's XF types a number: a date/time or duration format makes it `DateTime(serial, kind, is1904)` with
+    the serial the number's double and the workbook's date system; any other format (or an ixfe beyond the XF
+    table) leaves `Int` / `Float` -/
+def typeNum (fmt : Option CellFormat) (is1904 : Bool) (n : Num) : Val :=
+  match fmt with
+  | some .dateTime => .dt (numBits n) .dateTime is1904
+  | some .timeDelta => .dt (numBits n) .timeDelta is1904
+  | _ => match n with
+    | .int v => .int v
+    | .float b => .float b
+
+/-- what the reader must show for a logical cell stored under a layout entry -/
+def expectVal (env : Env) (c : LCell) (l : Lay) : Val :=
+  match c.val with
+  | .num x => typeNum env.fmts[l.xf % 65536]? env.is1904 (numContent env x l.enc)
+  | v => v.toVal
 
 /-! ### well-formed logical sheets -/
 
